@@ -1,5 +1,4 @@
-//! C07 counterexample search (run only after the Kani harness c07_next_item_total_bounded has failed or could not
-//! close its loop bound): every file of at most 4 octets over the tokenizer's special octets is read through the
+//! C07 native search (a bounded exploration of the real crate, run on every check; it also supplies the concrete input when a Verus obligation of the property fails): every file of at most 4 octets over the tokenizer's special octets is read through the
 //! public API; a panic or a read that makes no progress for 10 s is the failing input. Exit 1 with the input,
 //! exit 0 if none of the files fails.
 use domain::base::name::Name;
